@@ -1873,6 +1873,8 @@ def k13_input_matches(mir, rep):
                     mv = z3.Const(names[0], X.V)
                     if not ex.valid(p, z3.And(disc(mv) == 1, z3.Or([disc(proj(mv, "Some.0")) == k for k in MARKER_COLLECTIONS])))[0]:
                         rep.bad("K13.trial", "the MessagePack trial only runs when the first byte is a collection marker", wit)
+                if fmt == "json" and "trial" not in d and d.get("utf8") != "bad" and d.get("prefix") != "err":
+                    rep.bad("K13.trial", "the JSON trial parses the input itself; nothing but invalid UTF-8 (or an I/O error) may rule JSON out beforehand - a look-ahead sees less of a reader than of a slice", wit)
                 if fmt == "toml" and not is_slice:
                     pre = [e for e in p.trace if e[0] == "prefix"]
                     if pre and not ex.valid(p, asint(pre[0][1]) == 2 * 1024 * 1024)[0]:
@@ -1890,3 +1892,141 @@ def k13_input_matches(mir, rep):
     rep.samples.append({"query": "K13.trial", "claim": "per format: Err only for an I/O error of the source (prefix / reader); end of input, invalid UTF-8, syntax errors, an InvalidData chunker error => Ok(false); msgpack trial only for a collection first byte; TOML reader cut-off 2 MiB; YAML prefix 4 bytes",
                         "bound": "all paths of the four functions, slice and reader reference"})
     return stats
+
+
+# -------------------------------------------------------------------------------------------------
+# K14: detect_format order (from MIR, incl. the reader handle)      K15: flush reaches the writer
+# -------------------------------------------------------------------------------------------------
+
+def k14_detect_order(mir, rep):
+    fn = mir.find(r"(^|::)detect_format$")
+    ORDER = ["msgpack", "json", "yaml", "toml"]
+    FMT_OF = {"msgpack": "Msgpack", "json": "Json", "yaml": "Yaml", "toml": "Toml"}
+    stats = {"paths": 0, "some": 0, "none": 0, "err": 0}
+
+    def h(ex, p, name, argv, dst, dst_type, cur_fn):
+        if name == "drop":
+            return None
+        if re.search(r"Handle::<.*>::borrow_mut$", name):
+            r = fresh("borrow")
+            p.trace.append(("borrow", argv[0], r))
+            return r
+        m = re.search(r"(^|::)(msgpack|json|yaml|toml)::input_matches$", name)
+        if m:
+            out = []
+            for lab in ("no", "yes", "err"):
+                r = fresh("trial_%s_%s" % (m.group(2), lab))
+                if lab == "err":
+                    out.append((disc(r) == 1, r))
+                else:
+                    out.append((z3.And(disc(r) == 0, asint(proj(r, "Ok.0")) == (1 if lab == "yes" else 0)), r))
+            p.trace.append(("trial", m.group(2), argv[0]))
+            return out
+        return None
+    ex = X.Exec(mir, h)
+    handle = fresh("handle")
+
+    def fin(p, how, value):
+        stats["paths"] += 1
+        if how != "return":
+            return
+        trials = [e for e in p.trace if e[0] == "trial"]
+        labs = _path_labels(p, ["trial"])
+        outcomes = [l[1].split("_", 1) for l in labs]  # [format, outcome]
+        wit = {"kind": "detect_order", "trials": ["%s:%s" % tuple(o) for o in outcomes]}
+        got_order = [t[1] for t in trials]
+        if got_order != ORDER[:len(got_order)]:
+            rep.bad("K14.detect", "the trials run in the order MessagePack, JSON, YAML, TOML", wit)
+            return
+        # every trial gets its own fresh borrow of the handle
+        borrows = [e for e in p.trace if e[0] == "borrow"]
+        for i, t in enumerate(trials):
+            ok = i < len(borrows) and ex.valid(p, z3.And(borrows[i][1] == handle, t[2] == borrows[i][2]))[0]
+            if not ok:
+                rep.bad("K14.detect", "every trial gets a fresh borrow of the input handle (which rewinds a reader)", wit)
+                return
+        for o in outcomes[:-1]:
+            if o[1] != "no":
+                rep.bad("K14.detect", "detection stops at the first trial that does not say 'no'", wit)
+                return
+        last = outcomes[-1] if outcomes else None
+        if last is None:
+            rep.bad("K14.detect", "at least one trial runs", wit)
+        elif last[1] == "yes":
+            stats["some"] += 1
+            want = X.VARIANTS["Format::" + FMT_OF[last[0]]]
+            if not ex.valid(p, z3.And(disc(value) == 0, disc(proj(value, "Ok.0")) == 1, disc(proj(proj(value, "Ok.0"), "Some.0")) == want))[0]:
+                rep.bad("K14.detect", "the format of the first matching trial is selected", wit)
+        elif last[1] == "err":
+            stats["err"] += 1
+            if not ex.valid(p, disc(value) == 1)[0]:
+                rep.bad("K14.detect", "a trial's I/O error is returned", wit)
+        else:
+            stats["none"] += 1
+            if len(outcomes) != 4 or not ex.valid(p, z3.And(disc(value) == 0, disc(proj(value, "Ok.0")) == 0))[0]:
+                rep.bad("K14.detect", "None exactly when all four trials said 'no'", wit)
+    ex.run(fn, X.Path(), [handle], fin)
+    rep.absorb(ex)
+    if not (stats["some"] >= 4 and stats["none"] and stats["err"] >= 4):
+        raise Inconclusive("vacuity: detect_format exploration did not reach every outcome (%s)" % stats)
+    rep.witnesses.append("detect_format: %d paths (%d detected, %d none, %d errors)" % (stats["paths"], stats["some"], stats["none"], stats["err"]))
+    rep.samples.append({"query": "K14.detect", "paths": stats["paths"], "claim": "fixed trial order, a fresh borrow per trial, stop at the first non-'no', its format / None / its error"})
+
+
+def k15_flush(mir, rep):
+    """Translator::flush -> Dispatcher -> each Output::flush -> the writer's flush, result passed through"""
+    n = 0
+    for mod in ("json", "msgpack", "yaml", "toml"):
+        try:
+            fn = mir.find(r"^%s::<impl.*>::flush$" % mod)
+        except Inconclusive:
+            rep.bad("K15.flush", "%s::Output::flush flushes its own writer and returns that result (the Output has no flush of its own)" % mod, {"kind": "flush_chain", "output": mod})
+            continue
+        seen = []
+
+        def h(ex, p, name, argv, dst, dst_type, cur_fn):
+            if re.search(r"io::Write>::flush$", name):
+                r = fresh("flushed")
+                p.trace.append(("writer_flush", argv[0], r))
+                return r
+            return None
+        ex = X.Exec(mir, h)
+        me = fresh("out")
+
+        def fin(p, how, value, ex=ex, me=me, mod=mod):
+            seen.append(1)
+            fl = [e for e in p.trace if e[0] == "writer_flush"]
+            ok = how == "return" and len(fl) == 1 and ex.valid(p, z3.And(value == fl[0][2], z3.Or(fl[0][1] == proj(me, "f0"), fl[0][1] == proj(me, "f1"))))[0]
+            if not ok:
+                rep.bad("K15.flush", "%s::Output::flush flushes its own writer and returns that result" % mod, {"kind": "flush_chain", "output": mod})
+        ex.run(fn, X.Path(), [me], fin)
+        rep.absorb(ex)
+        n += len(seen)
+    # Dispatcher::flush and Translator::flush
+    disp = [f for nme, f in mir.functions.items() if nme.endswith("::flush") and "Dispatcher" in f.sig]
+    tr = [f for nme, f in mir.functions.items() if nme.endswith("::flush") and "Translator" in f.sig]
+    if len(disp) != 1 or len(tr) != 1:
+        raise Inconclusive("Dispatcher/Translator flush not found")
+
+    def hd(ex, p, name, argv, dst, dst_type, cur_fn):
+        m = re.search(r"(json|msgpack|yaml|toml)::Output<W> as Output>::flush$|<(?:&mut )?(json|msgpack|yaml|toml)::Output<W> as Output>::flush$", name)
+        if m or re.search(r"as Output>::flush$", name):
+            r = fresh("oflush")
+            p.trace.append(("output_flush", name, argv[0], r))
+            return r
+        return None
+    ex = X.Exec(mir, hd)
+    for f in (disp[0], tr[0]):
+        me = fresh("self")
+
+        def fin(p, how, value, ex=ex, f=f):
+            fl = [e for e in p.trace if e[0] == "output_flush"]
+            if how == "dead":
+                return
+            if how != "return" or len(fl) != 1 or not ex.valid(p, value == fl[0][3])[0]:
+                rep.bad("K15.flush", "Translator::flush reaches the selected Output's flush and returns its result", {"kind": "flush_chain", "fn": f.name})
+        p0 = X.Path()
+        ex.run(f, p0, [me], fin)
+    rep.absorb(ex)
+    rep.witnesses.append("flush chain: 4 Output::flush + Dispatcher + Translator, %d paths" % n)
+    rep.samples.append({"query": "K15.flush", "claim": "Translator::flush -> Dispatcher -> <format>::Output::flush -> Write::flush of the Output's own writer, results passed through"})
